@@ -1448,9 +1448,188 @@ fn run_signal(tape: &mut Tape, which: &str, verbose: bool) -> Outcome {
 }
 
 // ------------------------------------------------------------------------------------------
+// C11: signal-mt — run(None) against k threads with programs over {W = wakeup, S = stop, P = ping}
+
+fn signal_programs(max: usize) -> Vec<Vec<u8>> {
+    let mut out = vec![];
+    fn rec(cur: &mut Vec<u8>, max: usize, out: &mut Vec<Vec<u8>>) {
+        if !cur.is_empty() {
+            out.push(cur.clone());
+        }
+        if cur.len() == max {
+            return;
+        }
+        for op in [b'W', b'S', b'P'] {
+            cur.push(op);
+            rec(cur, max, out);
+            cur.pop();
+        }
+    }
+    rec(&mut vec![], max, &mut out);
+    out
+}
+
+fn run_signal_mt(tape: &mut Tape, nthreads: usize, maxlen: usize, verbose: bool) -> Outcome {
+    STAMP.store(0, Ordering::SeqCst);
+    let mut out = Outcome::default();
+    sched::begin(std::mem::take(tape), nthreads + 1);
+    let progs = signal_programs(maxlen);
+    let mut chosen: Vec<Vec<u8>> = vec![];
+    for _ in 0..nthreads {
+        let c = choose_free(progs.len() as u32);
+        chosen.push(progs[c as usize].clone());
+    }
+    out.decoded.push(format!("signal-programs {:?}", chosen.iter().map(|p| String::from_utf8_lossy(p).to_string()).collect::<Vec<_>>()));
+    let mut el: EventLoop<'static, u32> = EventLoop::try_new().expect("loop");
+    let signal = el.get_signal();
+    let (ping, source) = make_ping().expect("ping");
+    let log: Arc<Mutex<Vec<(u64, usize, &'static str)>>> = Arc::new(Mutex::new(vec![]));
+    let lg = log.clone();
+    el.handle()
+        .insert_source(source, move |(), _, n: &mut u32| {
+            *n += 1;
+            lg.lock().unwrap().push((stamp(), 0, "callback"));
+        })
+        .expect("insert");
+    let begun = Arc::new(AtomicBool::new(false));
+    {
+        let bg = begun.clone();
+        sched::set_monitor(Box::new(move |_tid, label| {
+            if label == "run.begin" {
+                bg.store(true, Ordering::SeqCst);
+            }
+        }));
+    }
+    let mut joins = vec![];
+    let total_ops: usize = chosen.iter().map(|p| p.len()).sum();
+    for (i, prog) in chosen.iter().enumerate() {
+        let tid = i + 1;
+        let prog = prog.clone();
+        let lg = log.clone();
+        let sig = signal.clone();
+        let bg = begun.clone();
+        let pg = ping.clone();
+        joins.push(sched::spawn(tid, move || {
+            sched::wait_flag(&bg, "wait_begin");
+            if sched::is_over() {
+                return;
+            }
+            for op in prog {
+                sched::point("op");
+                let name: (&'static str, &'static str) = match op {
+                    b'W' => ("W.begin", "W.end"),
+                    b'S' => ("S.begin", "S.end"),
+                    _ => ("P.begin", "P.end"),
+                };
+                lg.lock().unwrap().push((stamp(), tid, name.0));
+                match op {
+                    b'W' => sig.wakeup(),
+                    b'S' => sig.stop(),
+                    _ => pg.ping(),
+                }
+                lg.lock().unwrap().push((stamp(), tid, name.1));
+            }
+        }));
+    }
+    let lg = log.clone();
+    let sig2 = signal.clone();
+    let mut iters = 0u32;
+    let horizon = total_ops as u32 + 3;
+    let mut n = 0u32;
+    let r = el.run(None, &mut n, |_| {
+        if sched::is_over() {
+            // the controlled execution has ended (the loop was blocked for good): leave run()
+            sig2.stop();
+            return;
+        }
+        iters += 1;
+        lg.lock().unwrap().push((stamp(), 0, "iteration"));
+        if iters > horizon {
+            sig2.stop();
+        }
+    });
+    let returned = !sched::is_over();
+    if returned {
+        log.lock().unwrap().push((stamp(), 0, "run.returned"));
+    }
+    sched::main_done();
+    let (t, trace, blocked, steps, _cap) = sched::end();
+    *tape = t;
+    for j in joins {
+        let _ = j.join();
+    }
+    drop(ping);
+    out.transitions = steps;
+    out.callbacks = n as u64;
+    out.clauses.push("run-stop-mt");
+    if let Err(e) = r {
+        out.violations.push(viol(&["C11"], "dispatch-error", &[], format!("run failed: {e}")));
+    }
+    let l = log.lock().unwrap().clone();
+    let ret_at = l.iter().find(|e| e.2 == "run.returned").map(|e| e.0);
+    if iters > horizon {
+        out.violations.push(viol(&["C11", "C12"], "run-spinning", &[], format!("run() iterated {iters} times for {total_ops} operations of other threads")));
+    } else {
+        // stop then wakeup (in that order, both completed) => run returns
+        let stops: Vec<u64> = l.iter().filter(|e| e.2 == "S.end").map(|e| e.0).collect();
+        let wake_pairs: Vec<(u64, u64)> = {
+            let begins: Vec<(u64, usize)> = l.iter().filter(|e| e.2 == "W.begin" || e.2 == "P.begin").map(|e| (e.0, e.1)).collect();
+            begins
+                .iter()
+                .filter_map(|&(b, tid)| l.iter().find(|e| e.1 == tid && e.0 > b && (e.2 == "W.end" || e.2 == "P.end")).map(|e| (b, e.0)))
+                .collect()
+        };
+        let must_return = stops.iter().any(|s| wake_pairs.iter().any(|(b, _e)| b > s));
+        if must_return && ret_at.is_none() {
+            out.violations.push(viol(
+                &["C11"],
+                "stop-lost",
+                &[("threads", nthreads.to_string())],
+                format!("a stop() completed and a wake-up (wakeup() or a ping) began after it and completed, but run() did not return (loop blocked={blocked:?}); log={l:?}"),
+            ));
+        }
+        if let Some(rt) = ret_at {
+            let first_stop_begin = l.iter().filter(|e| e.2 == "S.begin").map(|e| e.0).min();
+            if first_stop_begin.map(|s| s > rt).unwrap_or(true) {
+                out.violations.push(viol(&["C11"], "run-returned-without-stop", &[], format!("run() returned Ok although no stop() had begun; log={l:?}")));
+            }
+            // at most the iteration in progress finishes after stop+wake completed
+            if let Some(s) = stops.iter().min() {
+                let wake_after: Option<u64> = wake_pairs.iter().filter(|(b, _)| b > s).map(|(_, e)| *e).min();
+                if let Some(w) = wake_after {
+                    let later = l.iter().filter(|e| e.2 == "iteration" && e.0 > w).count();
+                    if later > 1 {
+                        out.violations.push(viol(&["C11"], "stop-late", &[], format!("{later} iterations completed after stop()+wake-up had both returned; log={l:?}")));
+                    }
+                }
+            }
+        }
+        // pings: each completed ping is followed by a callback unless run returned first
+        for (k, e) in l.iter().enumerate().filter(|(_, e)| e.2 == "P.end") {
+            let b = l[..k].iter().rev().find(|x| x.1 == e.1 && x.2 == "P.begin").map(|x| x.0).unwrap_or(0);
+            let served = l.iter().any(|x| x.2 == "callback" && x.0 > b);
+            if !served && ret_at.is_none() {
+                out.violations.push(viol(&["C11", "C03"], "lost-ping", &[], format!("a ping completed (began at {b}) but no callback followed and run() is still waiting; log={l:?}")));
+            }
+        }
+    }
+    let mut h = std::collections::hash_map::DefaultHasher::new();
+    (iters, ret_at.is_some(), n).hash(&mut h);
+    out.observation = h.finish();
+    out.nontrivial = t_switches(&trace) > 0;
+    if verbose {
+        for (tid, lb) in &trace {
+            println!("step t{tid} {lb}");
+        }
+        println!("log={l:?}");
+    }
+    out
+}
+
+// ------------------------------------------------------------------------------------------
 
 pub fn is_driver(name: &str) -> bool {
-    matches!(name, "ping-mt" | "chan-mt" | "sync-mt" | "exec-mt" | "wakeup" | "run" | "block_on")
+    matches!(name, "ping-mt" | "chan-mt" | "sync-mt" | "exec-mt" | "wakeup" | "run" | "block_on" | "signal-mt")
 }
 
 pub fn run(args: &Args) -> Option<Report> {
@@ -1469,6 +1648,7 @@ pub fn run(args: &Args) -> Option<Report> {
             "sync-mt" => run_sync_mt(tape, nthreads, maxlen, verbose),
             "exec-mt" => run_exec_mt(tape, nthreads, maxlen, verbose),
             w @ ("wakeup" | "run" | "block_on") => run_signal(tape, w, verbose),
+            "signal-mt" => run_signal_mt(tape, nthreads, maxlen, verbose),
             _ => unreachable!(),
         }
     };
